@@ -1503,7 +1503,7 @@ namespace awkward {
   template <typename T, typename I>
   const ContentPtr
   UnionArrayOf<T, I>::num(int64_t axis, int64_t depth) const {
-    int64_t posaxis = axis_wrap_if_negative(axis);
+    int64_t posaxis = axis_wrap_if_negative(axis, depth);
     if (posaxis == depth) {
       Index64 out(1);
       out.setitem_at_nowrap(0, length());
@@ -1527,7 +1527,7 @@ namespace awkward {
   const std::pair<Index64, ContentPtr>
   UnionArrayOf<T, I>::offsets_and_flattened(int64_t axis,
                                             int64_t depth) const {
-    int64_t posaxis = axis_wrap_if_negative(axis);
+    int64_t posaxis = axis_wrap_if_negative(axis, depth);
     if (posaxis == depth) {
       throw std::invalid_argument(
         std::string("axis=0 not allowed for flatten") + FILENAME(__LINE__));
@@ -1964,7 +1964,7 @@ namespace awkward {
   template <typename T, typename I>
   const ContentPtr
   UnionArrayOf<T, I>::rpad(int64_t target, int64_t axis, int64_t depth) const {
-    int64_t posaxis = axis_wrap_if_negative(axis);
+    int64_t posaxis = axis_wrap_if_negative(axis, depth);
     if (posaxis == depth) {
       return rpad_axis0(target, false);
     }
@@ -1987,7 +1987,7 @@ namespace awkward {
   UnionArrayOf<T, I>::rpad_and_clip(int64_t target,
                                     int64_t axis,
                                     int64_t depth) const {
-    int64_t posaxis = axis_wrap_if_negative(axis);
+    int64_t posaxis = axis_wrap_if_negative(axis, depth);
     if (posaxis == depth) {
       return rpad_axis0(target, true);
     }
@@ -2038,7 +2038,7 @@ namespace awkward {
   template <typename T, typename I>
   const ContentPtr
   UnionArrayOf<T, I>::localindex(int64_t axis, int64_t depth) const {
-    int64_t posaxis = axis_wrap_if_negative(axis);
+    int64_t posaxis = axis_wrap_if_negative(axis, depth);
     if (posaxis == depth) {
       return localindex_axis0();
     }
@@ -2068,7 +2068,7 @@ namespace awkward {
         std::string("in combinations, 'n' must be at least 1")
         + FILENAME(__LINE__));
     }
-    int64_t posaxis = axis_wrap_if_negative(axis);
+    int64_t posaxis = axis_wrap_if_negative(axis, depth);
     if (posaxis == depth) {
       return combinations_axis0(n, replacement, recordlookup, parameters);
     }
